@@ -17,6 +17,7 @@ type ProgGen struct {
 	NoMsg      bool
 	NoDirs     bool
 	PlainText  bool // only letters in raw text (no HTML specials)
+	Disjoint   bool // lets and loop variables never share a name with a param
 	tmplNames  []string
 	tmplParams map[string][]Param
 	prog       *Program
@@ -24,7 +25,12 @@ type ProgGen struct {
 	top        bool            // generating the template's top-level block
 }
 
-var nameType = map[string]string{"a": "int", "i": "int", "v": "int", "b": "str", "s": "str", "x": "list", "m": "map", "c": "bool"}
+var nameType = map[string]string{"a": "int", "i": "int", "v": "int", "b": "str", "s": "str", "x": "list", "m": "map", "c": "bool",
+	"la": "int", "li": "int", "lv": "int", "lb": "str", "ls": "str", "lx": "list", "lc": "bool"}
+
+// disjoint pools: let/loop names that never coincide with a param name
+var letPoolD = []string{"la", "lb", "lx", "lc", "ls"}
+var loopPoolD = []string{"li", "lv"}
 var paramPool = []string{"a", "b", "x", "m", "c", "s", "i"}
 var letPool = []string{"a", "b", "x", "c", "s", "v"}
 var loopPool = []string{"i", "v", "a"}
@@ -245,7 +251,6 @@ func bindsName(cmds []Cmd, name string) bool {
 
 // block generates a block body: n commands, with lets declared in it used.
 func (g *ProgGen) block(sc0 *gscope, depth int, self int) []Cmd {
-	isTop := g.top
 	g.top = false
 	sc := sc0.clone()
 	n := 1 + g.pick(3)
@@ -261,12 +266,6 @@ func (g *ProgGen) block(sc0 *gscope, depth int, self int) []Cmd {
 	for k := 0; k < n; k++ {
 		c := g.command(sc, depth, self)
 		if c == nil {
-			continue
-		}
-		if isTop && (c["k"] == "letv" || c["k"] == "letc") && g.curParams[c["name"].(string)] {
-			// the repository's checker discards every use of a param inside a
-			// block that also declares a let of that name (pinned behaviour of
-			// parsepasses.CheckDataRefs); keep such shadowing to nested blocks.
 			continue
 		}
 		cmds = append(cmds, c)
@@ -318,7 +317,11 @@ func (g *ProgGen) command(sc *gscope, depth int, self int) Cmd {
 		}
 		return c
 	case 4:
-		nm := letPool[g.pick(len(letPool))]
+		pool := letPool
+		if g.Disjoint {
+			pool = letPoolD
+		}
+		nm := pool[g.pick(len(pool))]
 		return CLetV(nm, g.expr(sc, nameType[nm], 1))
 	case 5:
 		// if / elseif / else
@@ -334,7 +337,11 @@ func (g *ProgGen) command(sc *gscope, depth int, self int) Cmd {
 		return CIf(brs, els)
 	case 6:
 		// foreach
-		lv := loopPool[g.pick(len(loopPool))]
+		lpool := loopPool
+		if g.Disjoint {
+			lpool = loopPoolD
+		}
+		lv := lpool[g.pick(len(lpool))]
 		inner := sc.clone()
 		inner.names[lv] = true
 		inner.loops[lv] = true
@@ -367,6 +374,9 @@ func (g *ProgGen) command(sc *gscope, depth int, self int) Cmd {
 		return CSwitch(subj, cases, def)
 	case 8:
 		nm := []string{"b", "s"}[g.pick(2)]
+		if g.Disjoint {
+			nm = []string{"lb", "ls"}[g.pick(2)]
+		}
 		return CLetC(nm, g.block(sc, depth-1, self))
 	case 9, 10:
 		return g.call(sc, depth, self)
@@ -429,6 +439,14 @@ func (g *ProgGen) call(sc *gscope, depth int, self int) Cmd {
 		c["spell"] = "alias"
 	}
 	return c
+}
+
+// Value returns a random value of the fixed type of the given name.
+func (g *ProgGen) Value(name string) V { return g.value(nameType[name]) }
+
+// ExprOfName returns a literal expression of the fixed type of the given name.
+func (g *ProgGen) ExprOfName(name string) E {
+	return g.expr(&gscope{map[string]bool{}, map[string]bool{}, map[string]bool{}}, nameType[name], 0)
 }
 
 func (g *ProgGen) value(typ string) V {
